@@ -179,4 +179,17 @@ PROPS.update({
             "expected_probes": ["probe_group_established", "probe_group_closed_by_failover", "probe_failover_started_next_group", "probe_group_added",
                                 "probe_group_add_rejected", "probe_group_removed", "probe_group_remove_rejected"],
             "assumptions": ["consequences of a status report are checked when the reporting socket thread reports again (its callback has returned) or at the end of the run"]},
+    "C06": {"level": "exploration",
+            "rule": WORLD_RULE + " C06 plans: one group with two sockets; cache B static; cache A serves OLD, then forces 1-5 full reloads (restart with new "
+            "session, lost history, no-data-then-data; NEW disjoint / empty / identical / overlapping; reloads that fail first) while 1-3 reader tasks "
+            "are released at every byte delivery of the reload and issue batches of rtr_mgr_validate / rtr_mgr_get_spki calls under basic-block "
+            "preemption (mean slice 15..400 guards). Every read during a reload must equal the answer under complete-OLD or complete-NEW (plus B), "
+            "never go from new back to old per reader and table, and reads after the reload must see NEW (OLD if it failed). The same plans run in the "
+            "ThreadSanitizer build. Non-trivial: as above; reads_during_reload_discriminating counts reads whose OLD and NEW answers differ.",
+            "suites": [_world("C06", runs_quick=700, time_quick=35),
+                       _world("C06", name="world-C06-tsan", variant="tsan", runs_quick=200, time_quick=25, runs_thorough=20000, time_thorough=400)],
+            "min_counters": {"probe_reload_windows": 200, "reads_during_reload": 2000},
+            "expected_probes": ["probe_reload_windows", "probe_reload_with_old_data"],
+            "assumptions": ["cross-table ordering (prefix table swapped before router-key table) is not demanded: the statement speaks of 'the table'",
+                            "cache A's data changes only through reloads in these plans"]},
 })
